@@ -27,6 +27,7 @@ func c06bits() uint32 {
 
 // per-algorithm API with arbitrary bit lengths (every length mod 32, every tail shape)
 func VH_C06_nea1_bits() {
+	c0xFullDepth()
 	length := c06bits()
 	ck := c06key("ck")
 	count, bearer, dir := c06params()
@@ -46,6 +47,7 @@ func VH_C06_nea1_bits() {
 }
 
 func VH_C06_nea3_bits() {
+	c0xFullDepth()
 	length := c06bits()
 	ck := c06key("ck")
 	count, bearer, dir := c06params()
@@ -79,6 +81,7 @@ func VH_C06_nea2() {
 
 // the in-place byte-length API for algorithm identities 1, 2, 3
 func VH_C06_nasencrypt() {
+	c0xFullDepth()
 	n := c06octets()
 	alg := uint8(vrt.Choose("alg", 1, 3))
 	ck := c06key("ck")
@@ -114,3 +117,9 @@ func c06abstract() {
 func VH_C06_abs_nea1_bits() { c06abstract(); VH_C06_nea1_bits() }
 func VH_C06_abs_nea3_bits() { c06abstract(); VH_C06_nea3_bits() }
 func VH_C06_abs_nasencrypt() { c06abstract(); VH_C06_nasencrypt() }
+
+// Full-depth comparisons (real keystream generators on both sides): on the unchanged tree both sides normalise to
+// the same term and nothing is asked of the solver. If they do not, a disequality through 33 cipher clocks is out
+// of reach for z3, so those queries get a short timeout and end INCONCLUSIVE quickly; counterexamples for such
+// deviations come from the one-step lemmas and the abs_ variants of the same harnesses.
+func c0xFullDepth() { vrt.QueryTimeout(3000) }
